@@ -142,6 +142,49 @@ def main():
             continue
         obs.append({"n": ny * nx, "f": [int(v) for v in F.ravel()], "g": dense_ranks(G), "r": [int(v) for v in R.ravel()], "pn": pn, "pd": pd, "level": int(lvl), "K": int(K)})
         meta.append({"base": str(base), "kind": str(kind), "shape": [ny, nx], "three_d": threeD, "wind": wind, "meas": meas})
+    # ---- LARGE fields (far beyond the cells TLC enumerates; an implementation may sort / accumulate in blocks): the
+    # definitions of SourceArea.tla evaluated by the harness - sum of f over cells with larger g (exact when g has no ties,
+    # a band [lo, lo + sum of the tied cells] otherwise), fewest highest-valued cells reaching p of the total
+    nlarge = 0
+    for (ny, nx, tie) in ((120, 150, False), (257, 33, True), (64, 1100, False), (301, 301, True))[: 3 if t == "quick" else 4]:
+        F = rng.integers(0, 1000, size=(ny, nx)).astype(float)
+        F[rng.random((ny, nx)) < 0.2] = 0.0
+        G = (rng.integers(0, 50, size=(ny, nx)) if tie else rng.permutation(ny * nx).reshape(ny, nx)).astype(float)
+        F0, G0 = F.copy(), G.copy()
+        R = np.asarray(get_source_area(F, G), dtype=float)
+        nlarge += 1
+        sc = {"kind": "large_field", "shape": [ny, nx], "ties_in_g": tie}
+        chk.case(("large", ny, nx, tie))
+        if not (np.array_equal(F, F0) and np.array_equal(G, G0)):
+            chk.violation("get_source_area modifies the arrays it is given", sc, klass={"check": "inputs_modified"})
+            F, G = F0.copy(), G0.copy()
+        order = np.argsort(-G.ravel(), kind="stable")
+        fs, gs = F.ravel()[order], G.ravel()[order]
+        csum = np.concatenate([[0.0], np.cumsum(fs)])
+        first = np.searchsorted(-gs, -gs, side="left")             # index of the first cell of every tie group
+        last = np.searchsorted(-gs, -gs, side="right")
+        lo = np.empty(ny * nx)
+        hi = np.empty(ny * nx)
+        lo[order] = csum[first]
+        hi[order] = csum[last]
+        rr = R.ravel()
+        if R.shape != F.shape or not (np.all(rr >= lo) and np.all(rr <= hi)):
+            badc = int(np.argmax(~((rr >= lo) & (rr <= hi)))) if R.shape == F.shape else -1
+            chk.violation("large field %dx%d: the rescaled value at cell %d is %s, outside the sum of f over the cells with larger g [%s, %s]" % (ny, nx, badc, rr[badc] if badc >= 0 else None, lo[badc], hi[badc]),
+                          sc, klass={"check": "large_rescaled"})
+            continue
+        X, Y = np.meshgrid(np.arange(nx) * 2.0, np.arange(ny) * 3.0)
+        desc = np.sort(F.ravel())[::-1]
+        cs = np.cumsum(desc)
+        for pn in (1, 5, 8, 13, 16):
+            lvl, area = extract_percentile_contour(F, (X, Y, np.zeros_like(X)), pct=pn / 16.0)
+            k = int(np.searchsorted(cs, pn / 16.0 * cs[-1], side="left"))
+            if lvl != desc[k] or area != (k + 1) * 6.0:
+                chk.violation("large field %dx%d, p = %d/16: level %s / area %s, the definition gives level %s / %d cells" % (ny, nx, pn, lvl, area, desc[k], k + 1), sc, klass={"check": "large_contour"})
+                break
+        if not np.array_equal(F, F0):
+            chk.violation("extract_percentile_contour modifies the field it is given", sc, klass={"check": "inputs_modified"})
+    chk.extra["large_fields"] = nlarge
     d = common.scratch("trace_sourcearea")
     tf = os.path.join(d, "obs.json")
     json.dump(obs, open(tf, "w"))
